@@ -160,10 +160,10 @@ Section Accept.
     | LookupUnit a pl, ONone =>
         let free := match sc_canon c a pl with Some u => negb (unit_held s u) | None => true end in
         on 1 2 free (on 5 5 free (inl s))
-    | MarkUnavail a pl, OOk =>
+    | MarkUnavail a pl, OOk =>      (* the unit leaves circulation; whoever held it loses it (DHCP DECLINE) *)
         match sc_canon c a pl with
-        | Some u => if unit_held s u || memN u (ss_out s) then inl s
-                    else inl {| ss_h := ss_h s; ss_out := u :: ss_out s |}
+        | Some u => inl {| ss_h := filter (fun p => negb (fst (snd p) =? u)) (ss_h s);
+                           ss_out := if memN u (ss_out s) then ss_out s else u :: ss_out s |}
         | None => inl s
         end
     | Stats, OStats al tot num den => on 5 6 (stats_ok s al tot num den) (inl s)
